@@ -115,6 +115,10 @@ func paramDecremented() paramMigrator {
 		// if param is a number literal then we can do the decrementing now
 		asInt, err := strconv.Atoi(param)
 		if err == nil {
+			// negative positions count from the end and aren't shifted
+			if asInt < 0 {
+				return param
+			}
 			return strconv.Itoa(asInt - 1)
 		}
 
